@@ -47,6 +47,7 @@ def run(res, replay=None, inflate=False):
                 if wbl >= (1 << TBITS[lay["bl"][1]]):
                     wbl = lay["cbl"]
                 v = gen_vlevel(trng, lay["level"], wbl, inflate, 0, (0, 1, 1, 2, 3))
+                plant_specials(trng, s, m, lay["level"], v)
                 hdrbg = bytes(trng.below(256) for _ in range(lay["hdr"]))
                 pre = bytes(trng.below(256) for _ in range(trng.choice([0, 0, 3, 16])))
                 post = bytes(trng.below(256) for _ in range(trng.choice([0, 0, 1, 9])))
